@@ -461,8 +461,19 @@ fn serialise_router_advertisement(a: &RtrAdvertisement) -> Vec<u8> {
                 while dnssl.v.len() % 8 != 0 {
                     dnssl.serialise(0_u8);
                 }
+                /* The length octet counts units of 8 octets and must not wrap. */
+                let units = match u8::try_from(1 + dnssl.v.len() / 8) {
+                    Ok(units) => units,
+                    Err(_) => {
+                        log::warn!(
+                            "Not advertising a DNS search list of {} octets",
+                            dnssl.v.len()
+                        );
+                        continue;
+                    }
+                };
                 v.serialise(DNSSL.0);
-                v.serialise(1 + (dnssl.v.len() / 8) as u8);
+                v.serialise(units);
                 v.serialise(0_u16); // Reserved / Padding.
                 v.serialise(u32::try_from(lifetime.as_secs()).unwrap_or(u32::MAX));
                 v.serialise(&dnssl.v);
